@@ -10,8 +10,10 @@ import (
 	"log"
 	"net/http"
 	"net/url"
+	"os"
 	"runtime/debug"
 	"strings"
+	"sync"
 	"sync/atomic"
 	"time"
 
@@ -215,6 +217,8 @@ func (e *Env) Do(rq Req) *Call {
 	c.Rec.FailAfter = rq.FailWriteAfter
 	c.Rec.OnWrite = rq.OnWrite
 	c.T0 = time.Now()
+	inFlight.Store(tag, &flight{start: c.T0, desc: rq.Method + " " + rq.Path + " host=" + rq.Host + " query=" + clip(rq.Query, 300) + " body=" + clip(rq.Body, 300)})
+	defer inFlight.Delete(tag)
 	func() {
 		defer func() {
 			if p := recover(); p != nil {
@@ -228,6 +232,42 @@ func (e *Env) Do(rq Req) *Call {
 	c.D = reply.Decode(c.Rec)
 	c.Events = e.W.Events(tag)
 	return c
+}
+
+// ---- requests that are never answered ----
+
+type flight struct {
+	start    time.Time
+	desc     string
+	reported bool
+}
+
+var inFlight sync.Map // tag -> *flight
+
+// StuckAfter is how long a handler may take before the request counts as never answered. Handlers answer in
+// milliseconds and the harness never holds a request for more than a few seconds, so this is two orders of
+// magnitude of slack for a loaded machine.
+var StuckAfter = 4 * time.Minute
+
+// WatchStuck calls report (once per request) for every request that has been inside the handler for longer than
+// StuckAfter. It is the only place where wall-clock time leads to a verdict.
+func WatchStuck(report func(tag, desc string, since time.Duration)) {
+	if v, err := time.ParseDuration(os.Getenv("VERIF_STUCK_AFTER")); err == nil && v > 0 {
+		StuckAfter = v
+	}
+	go func() {
+		for {
+			time.Sleep(5 * time.Second)
+			inFlight.Range(func(k, v any) bool {
+				f := v.(*flight)
+				if d := time.Since(f.start); d > StuckAfter && !f.reported {
+					f.reported = true
+					report(k.(string), f.desc, d)
+				}
+				return true
+			})
+		}
+	}()
 }
 
 // Describe returns a compact JSON-able description of the call (replay files).
